@@ -126,8 +126,7 @@ def known_matcher(prop):
         return None
 
     def f(v):
-        k = match_known(known, v)
-        return k['what'] if k else None
+        return match_known(known, v)
     return f
 
 
